@@ -359,6 +359,9 @@ func (s *grpcServer) Write(srv bytestream.ByteStream_WriteServer) error {
 
 	var resp bytestream.WriteResponse
 	pr, pw := io.Pipe()
+	// Unblock the receive goroutine if it is still writing into the pipe
+	// when this handler returns (e.g. Put failed before reading everything).
+	defer func() { _ = pr.Close() }()
 
 	putResult := make(chan error, 1)
 	recvResult := make(chan error, 1)
